@@ -290,6 +290,79 @@ def run_coqchk(run, module):
 
 
 # --------------------------------------------------------------------------
+# the source text (translators/tr_stores.py -> Gen/StoreFacts.v -> Props/C11Src.v, Props/C18Src.v)
+
+def source_step(run, src_props):
+    """Translate the store sources and build the source-tied obligations.  Call inside common.Lock().
+    Returns the facts read from the text, or None (translator abort: the obligations count as undischarged)."""
+    import tr_stores
+    facts = None
+    try:
+        text, facts = tr_stores.translate(common.REPO, None)
+        common.write_if_changed(os.path.join(common.COQ, "Gen", "StoreFacts.v"), text)
+    except tr_stores.TranslateError as e:
+        run.broken.append(Broken("translator", "tr_stores: " + str(e)[:200], {"error": str(e)}))
+    except (OSError, SyntaxError, ValueError, AttributeError, IndexError, KeyError) as e:
+        run.broken.append(Broken("translator", "tr_stores", {"error": "%s: %s" % (type(e).__name__, e)}))
+    if facts is not None:
+        res = common.build_props(src_props)
+        run.add_build(res, run.coverage.get("checker_cmd", "") + " ; " + src_props[:-2] + ".vo (source-text instance)")
+        run.coverage["source_text_choices"] = dict(facts)
+    else:
+        run.coverage["obligations"] += len(common.theorems_in(src_props))
+    return facts
+
+
+def compare_text_and_probe(run, facts, probed):
+    """The choices read from the text and those shown by running the witnesses must agree."""
+    if facts is None:
+        return
+    diff = {k: {"text": facts[k], "behaviour": v} for k, v in probed.items() if v is not None and facts.get(k) != v}
+    run.coverage["behaviour_probes"] = probed
+    if diff:
+        run.broken.append(Broken("correspondence", "the source text and the behaviour of the witnesses denote different choices",
+                                 {"differences": diff}))
+
+
+def _spec(cls, typ, oid, mod, pay):
+    o = {"cls": cls, "typ": typ, "id": oid, "pay": pay, "cre": "2015-01-01T00:00:00.000Z"}
+    if mod is not None:
+        o["mod"] = mod
+    return o
+
+
+def probe_cases_c11():
+    i = POOL["identity"][0]
+    v1 = _spec("identity21", "identity", i, "2020-01-01T00:00:01.000Z", 1)
+    v2 = _spec("identity21", "identity", i, "2020-01-01T00:00:02.000Z", 2)
+    up_id = HEX_IDS[0]
+    uo = _spec("unreg", "x-unreg", up_id, "2020-01-01T00:00:01.000Z", 3)
+    add = lambda o: {"op": "add", "x": {"t": "dict", "o": o}}  # noqa: E731
+    return [
+        {"kind": "c11", "store": "mem", "profile": "probe", "steps": [add(v2), add(v1), {"op": "get", "id": i}]},
+        {"kind": "c11", "store": "fs", "profile": "probe", "steps": [add(v1), add(v2), {"op": "get", "id": i}]},
+        {"kind": "c11", "store": "fs", "profile": "probe", "steps": [add(v1), add(dict(v1, pay=9)), {"op": "query", "q": []}]},
+        {"kind": "c11", "store": "fs", "profile": "probe", "steps": [add(uo), {"op": "get", "id": up_id}]},
+    ]
+
+
+def read_probes_c11(impl):
+    def pay(tok):
+        return tok[0][2] if isinstance(tok, list) and tok else None
+    out = {}
+    try:
+        out["latest_cmp"] = {2: "CmpGt", 1: "CmpLt"}.get(pay(impl[0][2]))       # >= / <= are told apart by the correspondence only
+        out["pick"] = {2: "PickLast", 1: "PickFirst"}.get(pay(impl[1][2]))
+        out["overwrite"] = "Refuse" if impl[2][1] == "!DataSourceError" else ("Overwrites" if impl[2][1] == "ok" else None)
+        out["dir_case"] = "CaseInsensitive" if pay(impl[3][1]) == 3 else "CaseSensitive"
+    except (IndexError, TypeError, KeyError):
+        pass
+    if out.get("latest_cmp") == "CmpGt":
+        out["latest_cmp"] = None if False else "CmpGt"
+    return out
+
+
+# --------------------------------------------------------------------------
 # comparing a model line with the implementation's observation
 
 ADD_ERR = {"DataSourceError": "EOverwrite", "AttributeError": "EKind", "TypeError": "EType", "ValueError": "ETime"}
@@ -806,6 +879,7 @@ def check(run):
                            + ("" if quick else " + coqchk -o V.Props.C11"))
         if not quick and res["ok"]:
             run_coqchk(run, "V.Props.C11")
+        facts = source_step(run, "Props/C11Src.v")
     probe = common.run_impl("c11_impl", [{"kind": "probe"}], procs=1)[0]
     NAIVE_KEPT[0] = bool(probe.get("naive_kept", True))
     run.coverage["naive_datetime_kept"] = NAIVE_KEPT[0]
@@ -814,6 +888,11 @@ def check(run):
         store = "mem" if k % 2 == 0 else "fs"
         cases.append(gen_case(run.rng, store, max_adds=max_adds))
     impl = common.run_impl("c11_impl", cases)
+    pimpl = common.run_impl("c11_impl", probe_cases_c11(), procs=1)
+    probed = read_probes_c11(pimpl)
+    if facts is not None and facts.get("latest_cmp") in ("CmpGe", "CmpLe"):
+        probed["latest_cmp"] = None
+    compare_text_and_probe(run, facts, probed)
     mode = detect_mode(impl[0])
     mode_fs = detect_mode(impl[1])
     run.coverage["variant_selected"] = {"memory": mode, "filesystem": mode_fs}
@@ -862,7 +941,8 @@ def check(run):
             run.violations += oracle_case(c, i)
         run.coverage["search_cases"] = len(extra)
     run.coverage["trusted_base"] += [
-        "coq/Model/Store.v is hand-written; its tie to stix2/datastore is the per-run correspondence above",
+        "coq/Model/Store.v is hand-written; its tie to stix2/datastore is the per-run correspondence above and, for the "
+        "choices listed in source_text_choices, the source text itself read by translators/tr_stores.py (fail closed)",
         "encoding of a generated object into the model's record (instant in microseconds, 2.0 truncation to "
         "milliseconds, text for dictionary-kept content) is done by the harness from the generator's own instants",
     ]
